@@ -524,7 +524,7 @@ fn gen(seed: u64, n: usize, tier: &str) -> Vec<Value> {
         let cap_j = if flat { 16.0 * rres as f64 } else { (rres * *r.pick(&[8i64, 16, 64])) as f64 };
         let (smin, slo, shi, smax) = if flat || r.chance(1, 2) { (2, 6, 10, 14) } else { (1, 3, 12, 15) };
         let cap_q = cap_j * es as f64;
-        let soc16 = if r.chance(1, 4) { smin } else { r.range(smin, smax) };
+        let soc16 = if r.chance(1, 4) { smin } else if r.chance(1, 6) { smax } else { r.range(smin, smax) };
         let mut maps = Map::new();
         let mut keff = (kf, kg, ke, kr);
         let mut temp = 45.0;
